@@ -23,7 +23,8 @@
 //!   than the chunk in chunk-sized pieces.  An observation longer than 64 KiB is replaced on both sides
 //!   by the digest `D:<items>:<bytes>:<fnv-1a 64 of the text>|<first item>|<last item>|<outcome>`.
 //! Oracles: C01 (same observation under every schedule), C03 (expected value `x`; write∘parse on
-//! accepted inputs), C04 (fault ⇒ io), C05 (no panic, bounded allocation), C06 (independent reading),
+//! accepted inputs), C04 (fault ⇒ io), C05 (no panic, bounded allocation), C06 (independent reading
+//! of what the case's mode returned and, whatever the mode, of what `parse()` returns),
 //! C08 (location inside the input / on the corrupted token `t`), C09 (no line pulled beyond the
 //! completing one).
 use crate::common::*;
@@ -747,7 +748,7 @@ pub fn run_case(line: &str) -> (String, Vec<String>) {
     // ---- C01: every schedule gives the same observation
     let mut rng = Rng::new(delivered.len() as u64 * 31 + delivered.first().copied().unwrap_or(0) as u64);
     let scheds = if delivered.len() > BIG { big_schedules(&mut rng, delivered.len()) } else { schedules(&mut rng, delivered.len()) };
-    let base = run_parser(&c.fmt, &c.ty, &c.mode, mk(scheds[0].1.clone()), scheds[0].2);
+    let mut base = run_parser(&c.fmt, &c.ty, &c.mode, mk(scheds[0].1.clone()), scheds[0].2);
     let base_text = base.text(false);
     for (name, ev, chunk) in scheds.iter().skip(1) {
         let o = run_parser(&c.fmt, &c.ty, &c.mode, mk(ev.clone()), *chunk).text(false);
@@ -842,6 +843,7 @@ pub fn run_case(line: &str) -> (String, Vec<String>) {
             }
         }
         // ---- C03 converse: parse(write(parse(t))) = parse(t)
+        base.items = Vec::new(); // not needed any more; at scale it is hundreds of megabytes
         match catch(|| by_type!(c.ty.as_str(), rewrite_typed, &c.fmt, &delivered, c.w)) {
             None => fails.push("C03:writing the parsed value back panicked".into()),
             Some(None) => fails.push("C03:parse() rejects what the streaming API accepted".into()),
